@@ -29,6 +29,9 @@ type c17bCase struct {
 	RunSec   int    `json:"run_sec"` // virtual seconds before the context is cancelled
 	// LookupTimeoutMS is the per-attempt region lookup time-out for the hang scenarios
 	LookupTimeoutMS int `json:"lookup_timeout_ms,omitempty"`
+	// Stagger (retry-class, batch >= 2): only the first call fails for ever; call i gets through
+	// after i retry-later answers, so that the batch makes progress round after round
+	Stagger bool `json:"stagger,omitempty"`
 }
 
 // scheduleGaps returns the minimal waits before retry 1, 2, 3...
@@ -69,7 +72,11 @@ func c17bRunInBubble(c c17bCase) (out Outcome) {
 	switch c.Scenario {
 	case "retry-class":
 		for i := 0; i < n; i++ {
-			for k := 0; k < forever; k++ {
+			k := forever
+			if c.Stagger && i > 0 {
+				k = i
+			}
+			for ; k > 0; k-- {
 				cl.Script[marker(i)] = append(cl.Script[marker(i)], sim.Outcome{Kind: "exc", Class: c.Class, Stack: "persistent"})
 			}
 		}
@@ -300,7 +307,7 @@ func TestC17_RetrySchedule(t *testing.T) {
 		c := c17bCase{
 			Scenario:        rapid.SampledFrom([]string{"retry-class", "retry-class", "conn-drop", "dial-fail", "probe-drop", "probe-fail", "meta-down", "zk-error", "zk-hang", "meta-hang"}).Draw(t, "scenario"),
 			LookupTimeoutMS: rapid.SampledFrom([]int{20, 200, 1000, 30000}).Draw(t, "lookuptimeout"),
-			Batch:           rapid.SampledFrom([]int{0, 0, 1, 2, 3}).Draw(t, "batch"),
+			Batch:           rapid.SampledFrom([]int{0, 0, 1, 2, 3, 8}).Draw(t, "batch"),
 			Key:             evid.B(rapid.SampledFrom([]string{"a", "m", "z", ""}).Draw(t, "key")),
 			Queue:           rapid.SampledFrom([]int{1, 2, 100}).Draw(t, "queue"),
 			FlushMS:         rapid.SampledFrom([]int{0, 1, 20}).Draw(t, "flush"),
@@ -308,6 +315,7 @@ func TestC17_RetrySchedule(t *testing.T) {
 		}
 		switch c.Scenario {
 		case "retry-class":
+			c.Stagger = c.Batch >= 2 && rapid.Bool().Draw(t, "stagger")
 			c.Class = rapid.SampledFrom([]string{sim.CallQueueBig, sim.RegionOpening, sim.Throttling, sim.RetryImm, sim.TooBusy, sim.PleaseHold}).Draw(t, "class")
 		case "probe-fail":
 			c.Class = rapid.SampledFrom([]string{sim.NSRE, sim.RegionOpening, sim.RegionMoved, sim.TooBusy}).Draw(t, "class")
